@@ -193,6 +193,29 @@ for _k, _f in [('char::is_alphanumeric', C.p_alphanumeric), ('char::is_alphabeti
     model(_k)(_cp(_f))
 
 
+# u8 methods: the ASCII predicates / case maps act on byte values exactly as on chars below 128 and leave the rest alone
+for _k, _f in [('u8::is_ascii_digit', C.p_ascii_digit), ('u8::is_ascii_alphanumeric', C.p_ascii_alnum),
+               ('u8::is_ascii_alphabetic', C.p_ascii_alpha), ('u8::is_ascii_uppercase', C.p_ascii_upper),
+               ('u8::is_ascii_lowercase', C.p_ascii_lower), ('u8::is_ascii', C.p_ascii),
+               ('u8::is_ascii_whitespace', C.p_ascii_whitespace)]:
+    model(_k)(_cp(_f))
+
+
+@model('u8::to_ascii_lowercase')
+def _b_ascii_lower(I, ci, c):
+    return C.ascii_lower(load_ref(c))
+
+
+@model('u8::to_ascii_uppercase')
+def _b_ascii_upper(I, ci, c):
+    return C.ascii_upper(load_ref(c))
+
+
+@model('u8::eq_ignore_ascii_case')
+def _b_eq_ignore(I, ci, a, b):
+    return C.ascii_lower(load_ref(a)) == C.ascii_lower(load_ref(b))
+
+
 @model('char::is_digit')
 def _is_digit(I, ci, c, radix):
     if radix != 10:
